@@ -48,7 +48,7 @@ def cf(x):
     return "%s%%float" % h
 
 
-_TOK = re.compile(r"neg_infinity|infinity|nan|true|false|"
+_TOK = re.compile(r"neg_infinity|infinity|nan|true|false|Some|None|"
                   r"-?\d+\.?\d*(?:e[+-]?\d+)?|[\[\]();,]")
 
 
@@ -88,6 +88,10 @@ def parse_val(s):
             return True
         if t == "false":
             return False
+        if t == "None":
+            return None
+        if t == "Some":
+            return ("Some", val())
         if t == "nan":
             return float("nan")
         if t == "infinity":
@@ -1957,3 +1961,182 @@ def explore_nm_ensemble(ctx, rng):
         ctx.violation("nm_mcsolve:ensemble-vs-mesolve", "mean-off-by-more-than-5-sigma",
                       "exploration: martingale-weighted ensemble average deviates from mesolve by "
                       "%.1f standard errors" % worst, {"kind": "nm-ensemble", "worst_sigma": worst})
+
+
+# ===================================================================
+# InfluenceMartingale: exact correspondence with Model/C16_nm.v
+# ===================================================================
+HEADER_NM = ("From Coq Require Import List Bool Arith ZArith Floats.\n"
+             "Import ListNotations.\nFrom QV Require Import Model.C16 Model.C16_nm.\n"
+             "Local Open Scope nat_scope.\n")
+
+
+def gen_mart_case(rng):
+    times = [k / 8 for k in range(0, 33)]
+    a = rng.choice([1.0, 0.5, 2.0, 3.0, 1.25])
+    c = rng.choice([0.0, 0.25, 0.5, 1.0])            # scripted integral = c*(t2-t1) + d*(t2^2-t1^2)
+    d = rng.choice([0.0, 0.125])
+    nch = rng.randint(1, 3)
+    rates = [rng.choice([0.75, 1.0, -0.25, 0.5, 2.0]) for _ in range(nch)]
+    sh = rng.choice([0.0, 0.5, 1.0, 0.25])
+    ops = []
+    started = rng.random() < 0.85
+    if started:
+        ops.append(("init", rng.choice(times[:8]), rng.choice(["clear", "keep", "times", "times"]),
+                    sorted(rng.sample(times, rng.randint(0, 6)))))
+    for _ in range(rng.randint(2, 14)):
+        x = rng.random()
+        if x < 0.5:
+            ops.append(("value", rng.choice(times)))
+        elif x < 0.8:
+            ops.append(("collapse", rng.choice(times), rng.randrange(nch)))
+        elif x < 0.92:
+            ops.append(("init", rng.choice(times[:8]), rng.choice(["clear", "keep", "times"]),
+                        sorted(rng.sample(times, rng.randint(0, 6)))))
+        else:
+            ops.append(("reset",))
+    return {"a": a, "c": c, "d": d, "rates": rates, "shift": sh, "ops": ops}
+
+
+def run_mart_impl(case):
+    """the real InfluenceMartingale around a scripted solver, scripted
+    quadrature and a recording exp."""
+    import qutip                       # noqa
+    nm = sys.modules["qutip.solver.nm_mcsolve"]
+    tabs = {"integ": {}, "exp": {}, "rate": {}, "shift": {}}
+
+    class FakeSolver:
+        def rate(self, t, i):
+            v = case["rates"][i] * (1.0 + t / 4)
+            tabs["rate"][(float(t), i)] = v
+            return np.float64(v)       # nm_solver.rate returns np.real(...)
+
+        def rate_shift(self, t):
+            v = case["shift"] * (1.0 + t / 8)
+            tabs["shift"][float(t)] = v
+            return v
+
+    class _Integrate:
+        @staticmethod
+        def quad(f, t1, t2, limit=None, full_output=False, **kw):
+            v = case["c"] * (t2 - t1) + case["d"] * (t2 * t2 - t1 * t1)
+            tabs["integ"][(float(t1), float(t2))] = v
+            return (v, 0.0, {"neval": 21})
+
+    class _Scipy:
+        integrate = _Integrate
+
+    class _Np:
+        def __init__(self, real):
+            self._real = real
+
+        def exp(self, x):
+            v = float(self._real.exp(x))
+            tabs["exp"][float(x)] = v
+            return v
+
+        def __getattr__(self, name):
+            return getattr(self._real, name)
+
+    real_np, real_sp = nm.np, nm.scipy
+    nm.np, nm.scipy = _Np(real_np), _Scipy
+    outs = []
+    try:
+        im = nm.InfluenceMartingale(FakeSolver(), case["a"], 100)
+        np.seterr(all="ignore")
+        for op in case["ops"]:
+            try:
+                if op[0] == "reset":
+                    im.reset()
+                elif op[0] == "init":
+                    cache = op[2] if op[2] in ("clear", "keep") else list(op[3])
+                    im.initialize(op[1], cache=cache)
+                elif op[0] == "collapse":
+                    im.add_collapse(op[1], op[2])
+                else:
+                    outs.append(float(im.value(op[1])))
+            except RuntimeError:
+                outs.append(None)
+        st = {"t_prev": im._t_prev,
+              "cm_prev": None if im._t_prev is None else float(im._continuous_martingale_at_t_prev),
+              "cache": {fkey(k): fkey(v) for k, v in im._precomputed_continuous_martingale.items()},
+              "disc": None if im._discrete_martingale is None else
+              [(fkey(t), fkey(f)) for t, f in im._discrete_martingale]}
+    finally:
+        nm.np, nm.scipy = real_np, real_sp
+    return {"outs": [None if x is None else fkey(x) for x in outs], "state": st, "tabs": tabs}
+
+
+def coq_mart_expr(case, r):
+    def ent(k, v):
+        return "((%s, %s, %s, %s), %s)" % (cnat(k[0]), cf(k[1]), cf(k[2]), cnat(k[3]), cf(v))
+    t = r["tabs"]
+    ti = [ent((0, a, b, 0), v) for (a, b), v in t["integ"].items()]
+    te = [ent((0, x, 0.0, 0), v) for x, v in t["exp"].items()]
+    tr = [ent((0, tt, 0.0, i), v) for (tt, i), v in t["rate"].items()]
+    ts = [ent((0, tt, 0.0, 0), v) for tt, v in t["shift"].items()]
+    ops = []
+    for op in case["ops"]:
+        if op[0] == "reset":
+            ops.append("OReset FN")
+        elif op[0] == "init":
+            c = {"clear": "(Clear FN)", "keep": "(Keep FN)"}.get(op[2]) or \
+                "(Times FN %s)" % clist(op[3], cf)
+            ops.append("OInit FN %s %s" % (cf(op[1]), c))
+        elif op[0] == "collapse":
+            ops.append("OCollapse FN %s %s" % (cf(op[1]), cnat(op[2])))
+        else:
+            ops.append("OValue FN %s" % cf(op[1]))
+    return "f_mart_run %s %s %s %s %s %s" % (cf(case["a"]), clist(ti), clist(te), clist(tr),
+                                             clist(ts), clist(ops))
+
+
+def canon_mart_model(v):
+    outs, tprev, cm, cache, disc = v
+    started = tprev is not None
+    d = {}
+    for k, x in cache:
+        d[fkey(k)] = fkey(x)
+    return {"outs": [None if o is None else fkey(o[1]) for o in outs],
+            "started": started,
+            "t_prev": fkey(tprev[1]) if started else None,
+            "cm_prev": fkey(cm) if started else None,
+            "cache": d,
+            "disc": [(fkey(t), fkey(f)) for t, f in disc] if started else None}
+
+
+def canon_mart_impl(r):
+    st = r["state"]
+    started = st["t_prev"] is not None
+    return {"outs": r["outs"], "started": started,
+            "t_prev": fkey(st["t_prev"]) if started else None,
+            "cm_prev": fkey(st["cm_prev"]) if started else None,
+            "cache": st["cache"], "disc": st["disc"] if started else None}
+
+
+def compare_martingale(ctx, n, rng):
+    cases = [gen_mart_case(rng) for _ in range(n)]
+    impls = [run_mart_impl(c) for c in cases]
+    try:
+        vals = vlib.coq_eval_values("cases_C16_nm", HEADER_NM,
+                                    [coq_mart_expr(c, r) for c, r in zip(cases, impls)], chunk=100)
+        models = [canon_mart_model(parse_val(v)) for v in vals]
+    except (RuntimeError, AssertionError, ValueError) as e:
+        ctx.violation("corr:C16:nm-model-eval", "coqc", "martingale model evaluation failed",
+                      {"log": str(e)[-2000:]}, found_input=False)
+        return
+    mism = 0
+    for c, r, m in zip(cases, impls, models):
+        im = canon_mart_impl(r)
+        ctx.cov["traces_validated_against_impl"] += 1
+        ctx.count_case(("mart", json.dumps(c, sort_keys=True)),
+                       nontrivial=sum(1 for o in c["ops"] if o[0] == "value") > 0)
+        if im != m:
+            mism += 1
+            if mism <= 3:
+                keys = [k for k in im if im[k] != m[k]]
+                ctx.violation("corr:nm_mcsolve.InfluenceMartingale", "model-differs:" + keys[0],
+                              "InfluenceMartingale and the Coq model disagree on %s" % keys,
+                              {"kind": "mart", "case": c, "impl": {k: im[k] for k in keys},
+                               "model": {k: m[k] for k in keys}})
+    ctx.sample({"martingale_case": cases[-1], "impl_outs": impls[-1]["outs"]})
